@@ -1039,8 +1039,11 @@ CHECKS["C22"]["text"] = (
     'default, expand_vectors, expand_vectors+expand_mx, detect_aliases, replace_constant_*, replace_parameter_*, '
     'reduce_affine_expression, unroll_loops=False (thorough: their combinations, expand_mx, '
     'replace_parameter_expressions alone), the via-variable models also under eliminable_variable_expression=tau '
-    '(+expand_vectors, +detect_aliases). One transfer_model call (cache and codegen off) on a scratch folder per '
-    '(model, option set): 20.4k quick, 491k thorough. Oracle: accepted iff every free symbol of every duration '
+    '(+expand_vectors, +detect_aliases); loop-indexed durations (13: pv[i], ufv[i], uv[i], xv[i], pv[i-1], sums and '
+    'products with loop-invariant symbols, with another loop-indexed element, with a state / time) x every in-loop '
+    'expression incl. the loop-invariant x, 6 pairs of them in one loop / two loops, and next to an outside delay '
+    '(one delay state element and one duration per iteration). One transfer_model call (cache and codegen off) on a '
+    'scratch folder per (model, option set): 20.9k quick, ~495k thorough. Oracle: accepted iff every free symbol of every duration '
     '(including the durations of delays nested in a duration) is a literal, constant, parameter or fixed input '
     '(category from our own declarations); a duration that mentions the delayed value of a state, derivative, '
     'algebraic variable, free input or time, or an algebraic variable defined by a delay, must be rejected; for '
@@ -1057,8 +1060,8 @@ CHECKS["C22"]["note"] = (
     'is demanded for a duration that is the delayed value of an expression over constants, parameters and fixed '
     "inputs only (the statement's two sentences disagree: in the source it depends only on allowed symbols, in the "
     'model on the non-fixed delay-state input; the code rejects), nor for tau = such a delay under the options that '
-    'replace tau by its definition; these models are run and counted. Durations are loop-invariant scalars: pv[i] '
-    'or the loop index as a duration, delay of a bare literal, delays inside functions / if-equations, aliases that '
+    'replace tau by its definition; these models are run and counted. The loop index itself as a duration '
+    '(delay(x, i)), delay of a bare literal, delays inside functions / if-equations, aliases that '
     "change a symbol's category (algebraic = fixed input; a fixed=true attribute on an algebraic variable that "
     'detect_aliases ORs into an input), eliminate_constant_assignments, cache / codegen (C19) and arrays with '
     "element-wise fixed={..} are outside the alphabet. Finite grid. transfer_model parses through pymoca's default "
